@@ -57,6 +57,9 @@ def get_line_range_for_node(
 
     """
     first_lineno = node.lineno
+    for decorator in getattr(node, "decorator_list", []):
+        # the lineno of a decorated def or class is that of the "def" / "class" line
+        first_lineno = min(first_lineno, decorator.lineno)
     end_lineno = getattr(node, "end_lineno", None)
     if end_lineno is not None:
         # The parser knows where the node ends; the heuristics below are only
